@@ -25,7 +25,7 @@ TECHNIQUE = ('runtime monitoring: write barrier (__setattr__/__delattr__) on the
              'conform14')
 RULE = ('per shard a pool of call specifications over ~60 public functions (conversion, geodesic, statistics, survey, transformation '
         'with/without covariance in both directions, angle and coordinate objects, Transformation negation and epoch shift) with '
-        'random valid arguments; histories of 1..50 calls drawn with repetition from the pool, executed sequentially and again split '
+        'random valid arguments, plus NTv2 interpolation through one grid object read once per process from a synthetic file (interior, node, outermost-ring - where bicubic raises - and outside positions); histories of 1..50 calls drawn with repetition from the pool, executed sequentially and again split '
         'over 2..8 threads.  Refuting events: a logged write (new != old) to a shipped Ellipsoid/Projection/Transformation/'
         'TransformationSD; a catalogue snapshot differing after a history; a caller-owned list/array/angle/coordinate argument whose '
         'snapshot differs after the call; a result not bit-identical to the golden result of the same call.  '
@@ -86,9 +86,58 @@ def dkey(o):
 # ---------------------------------------------------------------------------------------------
 # call specifications (JSON-able) and their execution
 # ---------------------------------------------------------------------------------------------
+_GRID = {}
+
+
+def grid_model():
+    """One deterministic synthetic NTv2 model (parent + child) shared by the pool, the histories and the golden worker."""
+    if 'model' not in _GRID:
+        from . import c17
+        _GRID['model'] = c17.gen_model(random.Random(20241), lay='PC', small=True)
+    return _GRID['model']
+
+
+def grid_object(ns):
+    """The caller's grid object: read once per process (and once per reload of the reader) from this process's own copy of
+    the file, then passed to every NTv2 call of every history - like an application that opens its grid at start-up."""
+    import atexit
+    from ..oracles import ntv2 as nx
+    if 'path' not in _GRID:
+        path = os.path.join(tempfile.gettempdir(), 'vmon-c09-grid-%d.gsb' % os.getpid())
+        nx.write(grid_model(), path)
+        _GRID['path'] = path
+        atexit.register(lambda: os.path.exists(path) and os.remove(path))
+    key = id(ns.ntv2reader.NTv2Grid)
+    if _GRID.get('key') != key:
+        _GRID['obj'] = ns.ntv2reader.read_ntv2_file(_GRID['path'])
+        _GRID['key'] = key
+    return _GRID['obj']
+
+
+def grid_points(rnd):
+    """query positions (decimal degrees, longitude positive east) relative to the model: interior, outermost ring of cells
+    (bicubic fails there on the unchanged tree: a call that raises is part of the histories), on a node, outside"""
+    from ..oracles import ntv2 as nx
+    sg = rnd.choice(grid_model()['subgrids'])
+    S, N, E, W, dlat, dlon = (float(v) for v in nx.extents(sg))
+    kind = rnd.choice(['interior', 'interior', 'interior', 'ring', 'node', 'outside'])
+    if kind == 'interior':
+        lat, lonw = rnd.uniform(S + 1.2 * dlat, N - 1.2 * dlat), rnd.uniform(E + 1.2 * dlon, W - 1.2 * dlon)
+    elif kind == 'ring':
+        lat = rnd.choice([rnd.uniform(S, S + dlat), rnd.uniform(N - dlat, N)])
+        lonw = rnd.uniform(E, W)
+    elif kind == 'node':
+        lat, lonw = S + dlat * rnd.randint(1, max(1, sg['nrows'] - 2)), E + dlon * rnd.randint(1, max(1, sg['ncols'] - 2))
+    else:
+        lat, lonw = N + rnd.uniform(1, 5) * dlat + 7200.0, W + rnd.uniform(1, 5) * dlon + 7200.0
+    return lat / 3600.0, -lonw / 3600.0
+
+
 def dec_arg(ns, a):
     C = ns.constants
     if isinstance(a, dict):
+        if '$grid' in a:
+            return grid_object(ns)
         if '$ell' in a:
             v = a['$ell']
             return getattr(C, v) if isinstance(v, str) else C.Ellipsoid(v[0], v[1])
@@ -261,6 +310,9 @@ def gen_pool(ns, rnd, size):
         lambda: {'fn': 'survey.radiations', 'args': [rnd.uniform(0, 1e6), rnd.uniform(0, 1e7), rnd.uniform(0, 360), rnd.uniform(0, 1e4)]},
         lambda: {'fn': 'survey.joins', 'args': [rnd.uniform(0, 1e6), rnd.uniform(0, 1e7), rnd.uniform(0, 1e6), rnd.uniform(0, 1e7)]},
         lambda: {'fn': 'survey.mets_partial_differentials', 'args': []},
+        lambda: {'fn': 'ntv2reader.interpolate_ntv2', 'args': [{'$grid': 1}] + list(grid_points(rnd)) + [rnd.choice(['bilinear', 'bicubic'])]},
+        lambda: {'fn': 'ntv2reader.interpolate_ntv2', 'args': [{'$grid': 1}] + list(grid_points(rnd)) + [rnd.choice(['bilinear', 'bicubic'])]},
+        lambda: {'fn': 'transform.ntv2_2d', 'args': [{'$grid': 1}] + list(grid_points(rnd)) + [rnd.random() < 0.5, rnd.choice(['bilinear', 'bicubic'])]},
         lambda: {'fn': 'transform.conform7', 'args': xyz() + [{'$trans': rnd.choice(trans)}]},
         lambda: {'fn': 'transform.conform7', 'args': xyz() + [{'$neg': rnd.choice(trans)}]},
         lambda: {'fn': 'transform.conform7', 'args': xyz() + [{'$trans': rnd.choice(static_sd)}, V(rnd)]},
